@@ -53,6 +53,9 @@ def harnesses(tier, seed):
     jobs.append(dict(fn='h_steps', params=dict(style='dense', what='totals'), max_paths=20000))
     for decl in ('dense', 'rows_cols') if q else ('dense', 'rows_cols', 'diagonal', 'csr'):
         jobs.append(dict(fn='h_repeat', params=dict(decl=decl), max_paths=20000))
+    for decl in ('rows_cols', 'csr') if q else ('rows_cols', 'csr', 'coo', 'csc'):
+        for other in ('directional', 'own_step'):
+            jobs.append(dict(fn='h_uncovered_options', params=dict(decl=decl, other=other), max_paths=20000))
     for style in ('sparse',) if q else ('sparse', 'sp_csr', 'sp_coo', 'sp_csc'):
         jobs.append(dict(fn='h_uncovered_repeat', params=dict(style=style, drop=[[0, 1], [2, 2]]), max_paths=20000))
     return jobs
@@ -287,3 +290,83 @@ def h_uncovered_repeat(ctx, style, drop):
     ctx.check('no_duplicates_first', len(l1) == len(set(l1)), got=repr(l1))
     ctx.check('second_check_reports_the_same_list', sorted(l2) == sorted(l1), first=repr(l1), second=repr(l2))
     ctx.observe('n', len(l1))
+
+
+class _TwoIn(om.ExplicitComponent):
+    """y = A x (+ x0^2 on row 0) + B b; dy/dx declared sparse but missing two true nonzeros; per-input check options on b only"""
+    A = [[1, 2, 0], [0, 4, 5], [6, 0, 7]]
+    B = [[1, 2], [3, 4], [5, 6]]
+    MISSING = [(1, 2), (2, 0)]
+
+    def __init__(self, decl, other, xp):
+        super().__init__()
+        self.decl, self.other, self.xp = decl, other, xp
+
+    def _pattern(self):
+        return [(r, c) for r in range(3) for c in range(3) if self.A[r][c] != 0 and (r, c) not in self.MISSING]
+
+    def setup(self):
+        self.add_input('x', self.xp.ones(3))
+        self.add_input('b', self.xp.ones(2))
+        self.add_output('y', self.xp.ones(3))
+        pat = self._pattern()
+        r, c = np.array([q[0] for q in pat]), np.array([q[1] for q in pat])
+        if self.decl == 'rows_cols':
+            self.declare_partials('y', 'x', rows=r, cols=c)
+        else:
+            import scipy.sparse as sp
+            self.declare_partials('y', 'x', val=getattr(sp, self.decl + '_matrix')((np.ones(len(pat)), (r, c)), shape=(3, 3)))
+        self.declare_partials('y', 'b')
+        if self.other == 'directional':
+            self.set_check_partial_options(wrt='b', directional=True)
+        else:
+            self.set_check_partial_options(wrt='b', step=2.0 ** -6, form='backward')
+
+    def compute(self, inputs, outputs):
+        x, b = inputs['x'], inputs['b']
+        y = [sum(self.A[r][c] * x[c] for c in range(3)) + sum(self.B[r][k] * b[k] for k in range(2)) for r in range(3)]
+        y[0] = y[0] + x[0] * x[0]
+        outputs['y'] = self.xp.array(y) if self.xp is not np else np.array(y, dtype=float)
+
+    def compute_partials(self, inputs, partials):
+        x = inputs['x']
+        pat = self._pattern()
+        vals = [self.A[r][c] + (2 * x[0] if (r, c) == (0, 0) else 0) for r, c in pat]
+        if self.decl == 'rows_cols':
+            partials['y', 'x'] = self.xp.array(vals) if self.xp is not np else np.array(vals, dtype=float)
+        else:
+            v = partials['y', 'x']
+            r, c = np.array([q[0] for q in pat]), np.array([q[1] for q in pat])
+            if self.xp is not np:
+                from symx import sparse as SX
+                partials['y', 'x'] = getattr(SX, self.decl + '_matrix')((self.xp.array(vals), (r, c)), shape=(3, 3))
+            else:
+                import scipy.sparse as sp
+                partials['y', 'x'] = getattr(sp, self.decl + '_matrix')((np.array(vals, dtype=float), (r, c)), shape=(3, 3))
+        partials['y', 'b'] = self.xp.array(self.B) if self.xp is not np else np.array(self.B, dtype=float)
+
+
+def h_uncovered_options(ctx, decl, other):
+    """check options given for ANOTHER input of the component (a directional check, its own step/form) do not change the audit
+    of this input's declared pattern"""
+    _install(ctx)
+    p = om.Problem()
+    p.model.add_subsystem('c', _TwoIn(decl, other, ctx.np))
+    p.setup()
+    p.final_setup()
+    x = ctx.reals('x', 3, -3, 3)
+    b = ctx.reals('b', 2, -3, 3)
+    p.set_val('c.x', x)
+    p.set_val('c.b', b)
+    p.run_model()
+    data = p.check_partials(out_stream=None, method='fd', form='forward', step=STEP)
+    d = data['c']['y', 'x']
+    got = {(int(r), int(c)) for r, c in d.get('uncovered_nz', [])}
+    want = set(_TwoIn.MISSING)        # both missing entries are nonzero constants of the function
+    ctx.check('uncovered_nz_lists_exactly_the_nonzeros_outside_the_pattern', got == want, got=repr(sorted(got)), want=repr(sorted(want)))
+    Jfd = d['J_fd'][0] if isinstance(d['J_fd'], (list, tuple)) else d['J_fd']
+    Jfd = np.asarray(Jfd, dtype=object if ctx.sym else float)
+    for r, c in _TwoIn(decl, other, ctx.np)._pattern():
+        w = _TwoIn.A[r][c] + ((2 * x[0] + STEP) if (r, c) == (0, 0) else 0)
+        ctx.eq(f'J_fd[{r},{c}]', Jfd[r, c], w, 1e-9)
+    ctx.observe('n', len(got))
